@@ -145,12 +145,16 @@ func equalLeafs(a, b *etree.Element) bool {
 	return true
 }
 
-// sameElements checks if same tag and equal id attributes
+// sameElements checks if same tag and equal id and schemeIdUri attributes
+// (the attributes that are used to address an element in a patch)
 func sameElements(e1 *etree.Element, e2 *etree.Element) bool {
 	if e1.Tag != e2.Tag {
 		return false
 	}
 	id1 := getAttrValue(e1, "id")
 	id2 := getAttrValue(e2, "id")
-	return id1 == id2
+	if id1 != id2 {
+		return false
+	}
+	return getAttrValue(e1, "schemeIdUri") == getAttrValue(e2, "schemeIdUri")
 }
